@@ -1,3 +1,4 @@
+import BpModel.Model.Emit
 /-!
 # C10 — every accepted schema yields code the target toolchains accept
 
@@ -17,27 +18,6 @@ include name, empty struct size, empty enum, Python vocabulary, Go transitive qu
 nested-import qualification defect was repaired by a `fix:` commit.
 -/
 namespace Bp.C10
-
-inductive D where
-  | mk (id : Nat) (children : List D)
-
-mutual
-/-- emission order: children first, then the definition itself -/
-def emit : D → List Nat
-  | .mk id cs => emitAll cs ++ [id]
-def emitAll : List D → List Nat
-  | [] => []
-  | d :: ds => emit d ++ emitAll ds
-end
-
-mutual
-/-- all definitions, in declaration (pre-)order -/
-def ids : D → List Nat
-  | .mk id cs => id :: idsAll cs
-def idsAll : List D → List Nat
-  | [] => []
-  | d :: ds => ids d ++ idsAll ds
-end
 
 mutual
 /-- every definition is emitted exactly once: the emission is a permutation of the declarations -/
